@@ -141,9 +141,12 @@ PROPS.update({
                       "query unchanged, at any point of any history), c10_failed_load_keeps_policy (all failure points of load/load_filtered), c10_clear_failed, "
                       "c10_save_failed, c10_late_error (what a late role-link error leaves), c10_save_atomic (every cut point of create-tmp/append/rename leaves "
                       "old or new content) with c10_old_save_refuted for the pre-repair protocol; known finding: two-call helpers (c10_two_call_second_fails). "
-                      "Correspondence: scripted adapter at every position x 4 failure kinds; file-size-limit child process for the save clause",
+                      "Correspondence: scripted adapter at every position x 4 failure kinds; for the save clause a child process with a file-size limit at every "
+                      "byte count, and faults / crashes injected at SYSTEM-CALL boundaries with strace (the n-th openat / write / close / rename / unlink / fsync / "
+                      "ftruncate / fcntl touching the policy file or its temporary sibling fails with EIO, or the process is killed entering it): the file read "
+                      "back must be the complete old or the complete new policy, and a save that reported success must have left the new one",
         "level_note": ENGINE_NOTE + "; rename atomicity is assumed (named in Model/FileSave.v)",
-        "explanation": "theorems c10_*; fault enumeration through a scripted adapter; RLIMIT_FSIZE crash points for FileAdapter::save_policy",
+        "explanation": "theorems c10_*; fault enumeration through a scripted adapter; RLIMIT_FSIZE and strace-injected system-call faults / kills for FileAdapter::save_policy",
         "assumptions": ["rename(2) replaces the destination atomically", "the scripted adapter is a user-side Adapter implementation wrapping MemoryAdapter"],
     },
     "C14": {
